@@ -91,6 +91,12 @@ pub fn gen_input(src: &mut Src) -> MVal {
 }
 
 pub fn check_text(text: &str, classes: &[&'static str], binders: usize, gvar: &MVal, input: &MVal, sample: bool) -> CaseResult {
+    check_text_nt(text, classes, Some(binders), gvar, input, sample)
+}
+
+/// `binders`: Some(n) = C01's non-triviality rule (>= 2 binder kinds, an output, a name looked up);
+/// None = non-trivial as soon as the run produced an output or an error.
+pub fn check_text_nt(text: &str, classes: &[&'static str], binders: Option<usize>, gvar: &MVal, input: &MVal, sample: bool) -> CaseResult {
     let case = || json!({"program": text, "input": input.show(), "$g": gvar.show()});
     vcore::runner::note_case(|| format!("{} <- {} g={}", text, input.show(), gvar.show()));
     if std::env::var("VERIF_TRACE").is_ok() {
@@ -137,7 +143,10 @@ pub fn check_text(text: &str, classes: &[&'static str], binders: usize, gvar: &M
         }
     };
     let produced = !j.is_empty();
-    let nontrivial = binders >= 2 && produced && lookups > 0;
+    let nontrivial = match binders {
+        Some(b) => b >= 2 && produced && lookups > 0,
+        None => produced,
+    };
     let mut ok = CaseOk::new(nontrivial, fnv_str(&[text, &input.show(), &gvar.show()])).classes(classes);
     if lenient_used {
         ok = ok.class("equal-up-to-key-order-after-update");
